@@ -3,12 +3,13 @@ SPEC = dict(
     title="Incremental WAL segments stay correct under busy and partial checkpoints",
     pkg="./db", files=["db/c06_verif_test.go"],
     case_preamble="",   # every literal carries its scope (bin/check parses ids printed as n%N)
-    rule="8 hand-picked schedules, then random schedules of 5-14 steps (thorough: same, many more) over {write transaction (insert/update/delete on two "
-         "tables), read transaction start/stop on up to 4 extra connections, incremental snapshot attempt through the real CheckpointManager with a 3 ms "
-         "busy timeout}; 70% of the schedules get a steering sequence spliced in at a random position (reader takes a read mark on a log with unmoved "
-         "frames -> attempt moves everything but cannot truncate -> reader leaves and a writer restarts the log, or the writer appends behind the mark). "
-         "A schedule is non-trivial when >= 1 attempt ends all-moved-not-truncated and a later attempt detects a reset or resumes at a non-zero frame; "
-         "distinct by the schedule text",
+    rule="11 hand-picked schedules, then random schedules of 5-14 steps (thorough: same, many more) over {write transaction of varying size (insert/update/delete "
+         "on two tables, 0-32 extra rows), read transaction start/stop on up to 5 extra connections, incremental snapshot attempt through the real "
+         "CheckpointManager with a 3 ms busy timeout}; 80% get a steering episode spliced in at a random position: reader parked at the end of a log with "
+         "unmoved frames -> all-moved-not-truncated, then 1-4 rounds of {reader leaves, short write restarts the log in place, new reader parks, attempt "
+         "again | append behind the mark, attempt (busy) | append, re-park at the new end, attempt}, appends while readers stay parked, final release and "
+         "truncating attempt. A schedule is non-trivial when >= 1 attempt ends all-moved-not-truncated and a later attempt detects a reset or resumes at a "
+         "non-zero frame; distinct by the schedule text",
     exhaustive=False,
     trusted=["SQLite's WAL locking rules (read marks, read lock 0, backfill limit, restart/truncate conditions) are MODELLED in Model/C06.step, not proved; "
              "every generated schedule checks them against real SQLite (outcome triple, log restarted or appended, frames appended)",
